@@ -29,6 +29,31 @@ def _lookups(p, f):
     return out
 
 
+def _creations(p, f):
+    """hash tables created: (hash function, equality function, instruction)"""
+    out = []
+    for i in f.calls():
+        tg = i.callee or ""
+        g = p.m.functions.get(tg)
+        sn = (g.d.get("srcname") if g is not None else None) or tg
+        fr = None
+        if tg == "create_hash_table":
+            fr = [strip_casts(f, a) for a in i.args[-2:]]
+        elif tg.startswith(("_ZN10hash_tableC1E", "_ZN10hash_tableC2E")):
+            fr = [strip_casts(f, a) for a in i.args[-2:]]
+        if fr is None:
+            continue
+        names = []
+        for x in fr:
+            if x.get("k") == "f":
+                h = p.m.functions.get(x["v"])
+                names.append((h.d.get("srcname") if h is not None and h.d.get("srcname") else x["v"]))
+            else:
+                names.append("?")
+        out.append((names[0], names[1], i))
+    return out
+
+
 def _loops(f):
     out = []
     for L in f.loops():
@@ -62,6 +87,7 @@ def rule_R26(ctx, rep):
                     "behaviour")
     pc, px = ctx.prog("c-lib"), ctx.prog("cxx-lib")
     nf = nl = nlo = 0
+    ncr = [0]
     for f in pc.m.defined():
         if not f.module or not f.module.startswith("yaep."):
             continue
@@ -82,6 +108,18 @@ def rule_R26(ctx, rep):
         elif lc:
             rep.cover(pc, [f.name])
             rep.ok("R26", f.name + "/lookups", sample={"lookups": sorted(mc)})
+        cc_, cx_ = _creations(pc, f), _creations(px, g)
+        ncr[0] += len(cc_)
+        mc, mx = _multiset((a, b) for (a, b, _) in cc_), _multiset((a, b) for (a, b, _) in cx_)
+        if mc != mx:
+            dc = sorted(k for k in mc if mc[k] != mx.get(k, 0))
+            dx = sorted(k for k in mx if mx[k] != mc.get(k, 0))
+            site = [w for (a, b, w) in cx_ if (a, b) in dx] or [w for (a, b, w) in cc_ if (a, b) in dc]
+            rep.violation("R26", f.name + "/tables", "the C and the C++ branch of %s create their hash tables with different (hash, equality) functions: only in C %s, only "
+                          "in C++ %s -- one of the libraries hashes and compares the elements of a table with the functions of another table" % (f.name, dc, dx),
+                          where=site[0].where(), witness=[w.where() for w in site])
+        elif cc_:
+            rep.ok("R26", f.name + "/tables", sample={"tables": sorted(mc)})
         oc, ox = _loops(f), _loops(g)
         nlo += len(oc)
         mc, mx = _multiset((a, b) for (a, b, _) in oc), _multiset((a, b) for (a, b, _) in ox)
@@ -96,3 +134,4 @@ def rule_R26(ctx, rep):
     rep.floor("R26", "functions of yaep.c present in both libraries", nf, 150)
     rep.floor("R26", "hash-table lookups compared", nl, 15)
     rep.floor("R26", "counting loops compared", nlo, 60)
+    rep.floor("R26", "hash-table creations compared", ncr[0], 10)
